@@ -5,12 +5,15 @@ Driver for the characterisation models:   lake env lean --run PgVerif/Drv/Char.l
   ols [xs] [ys]                                 least squares at ℚ                              -> ok slope intercept | degenerate
   sec <lo> <hi> [curve]                         open section (t-plot / alpha-s limits)          -> ok [i;j;…]
   meso <method> <geometry> [vol] [thick] [kelvin] [volwindow]    -> ok [widths] [areas] [volumes] [dist] [cum] | refused
+  hktail [widths] [vol]                         tail of the HK functions                        -> ok [avg widths] [dist] [cum]
+  hkwidth <geometry> <d_mat> <l>                reported width                                  -> ok n/d | none
   mg <branch> <pore geometry>                   meniscus geometry table                         -> ok <name> | none
   gf <meniscus geometry>                        geometry factor                                 -> ok n/d | none
 -/
 import PgVerif.Gen.CharF
 import PgVerif.Model.Linear
 import PgVerif.Model.Meso
+import PgVerif.Model.Micro
 import PgVerif.Drv.Proto
 import Mathlib.Algebra.Order.Field.Rat
 
@@ -42,6 +45,7 @@ def step (ts : List String) : String :=
       else if kind = "lang" then showWin (langWindow ps (q langLo) (q langHi) limits)
       else if kind = "da" then showWin (daWindow ps limits)
       else if kind = "meso" then showWin (mesoWindow ps (q mesoLo) (q mesoHi) limits)
+      else if kind = "micro" then showWin (PgVerif.Model.Micro.microWindow ps (q microHi) limits)
       else "bad-op"
     | _, _, _, _ => "bad-op"
   | ["ols", xs, ys] =>
@@ -62,6 +66,19 @@ def step (ts : List String) : String :=
       | some r => s!"ok {showRatList r.widths} {showRatList r.areas} {showRatList r.volumes} {showRatList r.distribution} {showRatList (cumulative r.volumes vol)}"
       | none => "refused"
     | _, _, _ => "bad-op"
+  | ["hktail", widths, vol] =>
+    match ratList widths, ratList vol with
+    | some widths, some vol =>
+      let r := PgVerif.Model.Micro.tail (α := ℚ) widths vol
+      s!"ok {showRatList r.widths} {showRatList r.distribution} {showRatList r.cumulative}"
+    | _, _ => "bad-op"
+  | ["hkwidth", g, dmat, l] =>
+    match parseRat dmat, parseRat l with
+    | some dmat, some l =>
+      match PgVerif.Model.Micro.reportedWidth (α := ℚ) g dmat l with
+      | some r => "ok " ++ showRat r
+      | none => "none"
+    | _, _ => "bad-op"
   | ["mg", b, g] =>
     match meniscusGeometry.lookup (b, g) with
     | some r => "ok " ++ r
